@@ -169,7 +169,11 @@ Definition recode_agrees (m : res (list N)) (o : dobs) : bool :=
   end.
 
 (* (struct name, input, Decode obs, DecodeStrict obs, (st2, re2, sst2, sre2) = decodes of the re-encoding) *)
-Definition struct_case : Type := string * list N * dobs * dobs * (N * list N * N * list N).
+(* to keep the case terms small, byte strings equal to an earlier one are passed as None:
+   sre None = re, re2 None = re, sre2 None = re2 *)
+Definition struct_case : Type :=
+  string * list N * dobs * (N * N * option (list N)) * (N * option (list N) * N * option (list N)).
+Definition dflt (o : option (list N)) (d : list N) : list N := match o with Some x => x | None => d end.
 
 Definition struct_oracle (s : schema) (d : list N) (o so : dobs) (o2 : N * list N * N * list N) : bool :=
   let '(st, _, re) := o in
@@ -184,7 +188,12 @@ Definition struct_oracle (s : schema) (d : list N) (o so : dobs) (o2 : N * list 
   (if sst =? 0 then (st =? 0) && list_eqb sre re && (if flat_canon s then list_eqb sre d else true) else true).
 
 Definition check_struct (c : struct_case) : N :=
-  let '(nm, d, o, so, o2) := c in
+  let '(nm, d, o, so', o2') := c in
+  let re := snd o in
+  let so := (fst so', dflt (snd so') re) in
+  let '(st2, re2', sst2, sre2') := o2' in
+  let re2 := dflt re2' re in
+  let o2 := (st2, re2, sst2, dflt sre2' re2) in
   match Schema.lookup schemas_env nm with
   | None => 3
   | Some s =>
